@@ -177,48 +177,52 @@ where
     type Item = Result<Item>;
 
     fn poll_next(mut self: Pin<&mut Self>, cx: &mut Context<'_>) -> Poll<Option<Self::Item>> {
-        // Attempt to pop a message off of the current batch, if available.
-        if let Some(bytes) = self.message_batch.as_mut().and_then(|b| b.pop()) {
-            return self.decode_message(bytes);
-        }
-
-        // Otherwise, poll a new frame from the stream
-        let frame = match futures::ready!(self.stream.poll_next_unpin(cx)) {
-            Some(Ok(frame)) => frame,
-            Some(Err(err)) => return Poll::Ready(Some(Err(err))),
-            None => return Poll::Ready(None),
-        };
-
-        match frame {
-            // If the frame is a standard, unbatched message, then decode and return it
-            // immediately.
-            Frame::Message(mut payload) => {
-                if let Some(decomp) = &self.decompression {
-                    payload.message = decomp
-                        .decompress(payload.message)
-                        .map_err(CodecError::DecompressFailure)?;
-                }
-
-                self.decode_message(payload.message)
+        // A batch may be empty, so an unbounded run of batch frames can follow one another
+        // without yielding a message: iterate rather than recurse, or a peer's bytes decide
+        // how deep the stack grows.
+        loop {
+            // Attempt to pop a message off of the current batch, if available.
+            if let Some(bytes) = self.message_batch.as_mut().and_then(|b| b.pop()) {
+                return self.decode_message(bytes);
             }
-            // If the frame is a batched message, then set the current batch and call `poll_next`
-            // again to begin popping off messages.
-            Frame::BatchMessage(mut bytes) => {
-                if let Some(decomp) = &self.decompression {
-                    bytes = decomp
-                        .decompress(bytes)
-                        .map_err(CodecError::DecompressFailure)?;
-                }
 
-                let mut batch = decode_message_batch(bytes)?;
-                // Messages are popped off the end of the batch, so store it in reverse to
-                // yield them in the order they were published
-                batch.reverse();
-                self.message_batch = Some(batch);
-                self.poll_next(cx)
+            // Otherwise, poll a new frame from the stream
+            let frame = match futures::ready!(self.stream.poll_next_unpin(cx)) {
+                Some(Ok(frame)) => frame,
+                Some(Err(err)) => return Poll::Ready(Some(Err(err))),
+                None => return Poll::Ready(None),
+            };
+
+            match frame {
+                // If the frame is a standard, unbatched message, then decode and return it
+                // immediately.
+                Frame::Message(mut payload) => {
+                    if let Some(decomp) = &self.decompression {
+                        payload.message = decomp
+                            .decompress(payload.message)
+                            .map_err(CodecError::DecompressFailure)?;
+                    }
+
+                    return self.decode_message(payload.message);
+                }
+                // If the frame is a batched message, then set the current batch and go round
+                // again to begin popping off messages.
+                Frame::BatchMessage(mut bytes) => {
+                    if let Some(decomp) = &self.decompression {
+                        bytes = decomp
+                            .decompress(bytes)
+                            .map_err(CodecError::DecompressFailure)?;
+                    }
+
+                    let mut batch = decode_message_batch(bytes)?;
+                    // Messages are popped off the end of the batch, so store it in reverse to
+                    // yield them in the order they were published
+                    batch.reverse();
+                    self.message_batch = Some(batch);
+                }
+                // Otherwise, do nothing.
+                _ => return Poll::Ready(None),
             }
-            // Otherwise, do nothing.
-            _ => Poll::Ready(None),
         }
     }
 
